@@ -460,7 +460,7 @@ func genC05(c *Ctx) {
 			if ref := refRepOf(a); ref != nil && ref.ContentType == "video" && a.SegmentDurMS > 0 {
 				for _, pph := range []int{60, 30} {
 					pd := 3600 / pph
-					if pd*1000%a.SegmentDurMS != 0 || (!c.Thorough() && pph == 30 && ai%2 == 0) {
+					if pd*1000%a.SegmentDurMS != 0 || !periodStartsAligned(a, pd) || (!c.Thorough() && pph == 30 && ai%2 == 0) {
 						continue
 					}
 					cf := mkCfg(r.Pick(0, 0, 61), r.Pick(60, 30, 25), 0, r.Pick(500, 1500, 3500, 0), r.PickS("tlt", "tln", "n"))
